@@ -87,6 +87,13 @@ func (m *Migrator) MigrateFiles(patterns []string, outputPath string) error {
 
 			// Extract source imports for package reference resolution
 			sourceImports := m.parser.ExtractImportsWithInfo(file, pkg.TypesInfo)
+			if sharedTypeConverter != nil && pkg.TypesInfo != nil {
+				for _, imp := range file.Imports {
+					if pkgName := pkg.TypesInfo.PkgNameOf(imp); pkgName != nil {
+						sharedTypeConverter.RecordPackageName(pkgName.Imported().Path(), pkgName.Imported().Name())
+					}
+				}
+			}
 
 			// Extract patterns
 			patterns, warnings := m.parser.ExtractPatterns(file, pkg.TypesInfo, wireImport, filePath)
